@@ -12,6 +12,9 @@ from .queue_targets import flags, spy_mods
 HOSTS = ('HsmEventProcessor', 'InstrumentedHsmEventProcessor', 'HsmWithQueues', 'ActiveObject')
 SIGKINDS = ('ENTRY_SIGNAL', 'EXIT_SIGNAL', 'INIT_SIGNAL', 'SEARCH_FOR_SUPER_SIGNAL', 'EMPTY_SIGNAL',
             'REFLECTION_SIGNAL', 'user')
+# the processor's own signals above the search signal (an active object answers them in `top`; a decorated state that
+# is offered one on the way out must log it as an internal invocation): only the hosts that can meet them
+META_KINDS = ('STOP_FABRIC_SIGNAL', 'STOP_ACTIVE_OBJECT_SIGNAL', 'SUBSCRIBE_META_SIGNAL', 'PUBLISH_META_SIGNAL')
 raw_of = z3.Function('undecorated', Ref, Ref)
 
 
@@ -381,6 +384,58 @@ def t_instr_dispatch(host, meta=None):
                   (['hsm.HsmWithQueues.dispatch'] if host in QUEUED_HOSTS else []))
 
 
+def t_start_body(host):
+    """The undecorated body of HsmWithQueues.start_at / ActiveObject.start_at around the step it wraps: what was posted,
+    deferred or armed before the chart is started stays where it is (what the start state's own entry / init actions
+    post or defer happens inside the wrapped step and is theirs to decide)."""
+    path = {'HsmWithQueues': 'hsm.HsmWithQueues.start_at', 'ActiveObject': 'activeobject.ActiveObject.start_at'}[host]
+
+    def run(it):
+        c = it.c
+        from contracts.common import ACTIVE_HOSTS
+        self = make_chart(it, host)
+        flags(it, self)
+        c.hset(self, 'instrumented', c.fresh('instrumented', z3.BoolSort()))
+        inner_calls = []
+
+        def wrapped_step(it_, fn, args, kwargs):
+            inner_calls.append(args)
+            return None
+        # the step that the body wraps: the next start_at up the class hierarchy (verified by start_at@...[wrappers])
+        ups = {'HsmWithQueues': ['hsm.InstrumentedHsmEventProcessor.start_at', 'hsm.HsmEventProcessor.start_at'],
+               'ActiveObject': ['hsm.HsmWithQueues.start_at']}[host]
+        for u in ups:
+            it.w.contracts[u] = FnContract(u, wrapped_step)
+        if host == 'ActiveObject':
+            from .ao_targets import _service_contracts
+            _service_contracts(it.w)
+            it.w.contracts['activeobject.ActiveObject.__start'] = FnContract('__start', lambda it_, fn, a, k: None)
+            c.hset(self, 'name', c.fresh('name0', Ref))
+        dq = c.read(self, 'defer_queue')
+        pq = c.read(c.read(self, 'queue'), 'deque') if host in ACTIVE_HOSTS else c.read(self, 'queue')
+        kept = [('deferred-events-kept', dq, ('C15',)), ('pending-events-kept', pq, ('C14', 'C04'))]
+        if host in ACTIVE_HOSTS:
+            kept.append(('timed-sources-left-alone', c.read(self, 'posted_events_queue'), ('C10', 'C11')))
+        before = [(c.hget(r, '$items'), c.hget(r, '$len')) for _, r, _ in kept]
+        S = c.fresh_ref('initial_state', 'state', distinct=False)
+        c.assume(z3.And(S.e != NONE, S.e != TOP))
+        fi = it.src.funcs.get(path)
+        if fi is None:
+            from pyvc.sym import Unsupported
+            raise Unsupported('%s no longer exists' % path)
+        body = SFunc(fi, [], None, host).bind(self)
+        out = run_body(it, body, [S], contract_key='(body of) ' + path)
+        c.prove('start_at[body]@%s:post/returns-normally' % host, out.raised is None, tags=('C14', 'C15', 'C10'))
+        if out.raised is not None:
+            return
+        c.prove('start_at[body]@%s:post/wraps-one-step' % host, len(inner_calls) == 1, tags=('C14', 'C15', 'C10'))
+        for (nm, ref, tg), (items0, len0) in zip(kept, before):
+            c.prove('start_at[body]@%s:post/%s' % (host, nm),
+                    z3.And(c.hget(ref, '$len') == len0, c.hget(ref, '$items') == items0), tags=tg)
+        c.cover('start_at[body]@%s:cover' % host)
+    return Target('start_at[body]@%s' % host, run, [path])
+
+
 def t_instr_start_at(host):
     """start_at of an instrumented host around the core: START marker, one trace record top -> start state."""
     def run(it):
@@ -621,6 +676,7 @@ def family(src, tier):
     """(world, targets) pairs shared by C18-C21 and C23; each property selects its obligations by tag."""
     w = base_world(src)
     ts = [t_spy_on(h, k) for h in HOSTS for k in SIGKINDS]
+    ts += [t_spy_on(h, k) for h in ('HsmWithQueues', 'ActiveObject') for k in META_KINDS if k in w.signals]
     wi = instr_world(src, tier)
     wu = instr_world(src, tier, spied=False)
     return [(w, ts),
